@@ -26,19 +26,43 @@ func runRegistry(a *Analyzer, r *Results) {
 	newest := Field(vc, "newestHvCanceledOlder")
 	older := func(x, y *Term) *Term { return Call("state.OlderThan", x, y) }
 
-	// K3: OlderThan == lexicographic <
+	// K3: OlderThan == lexicographic <, decided by exhaustive evaluation over the order types of its four inputs
 	{
 		id := "(*state.HeightView).OlderThan"
 		fn := a.P.Func(id)
-		rets, und := a.Returns(id, nil)
-		r.Undecided = append(r.Undecided, und...)
-		x, y := Root(fn.Params[0].Name()), Root(fn.Params[1].Name())
-		hx, hy, vx, vy := Field(x, "height"), Field(y, "height"), Field(x, "view"), Field(y, "view")
-		want := T("or", "", Bin("<", hx, hy), T("and", "", Bin("==", hx, hy), Bin("<", vx, vy)))
-		for _, e := range rets {
-			got := e.Args[0]
-			r.Check("K3", props("C15", "C13"), "HeightView.OlderThan is the strict lexicographic order on (height, view)", "OlderThan", e.Pos(a), got.Key() == want.Key(), "returns "+PP(got)+", expected "+PP(want), "N")
+		pt := a.PathTerm(fn)
+		ok := pt != nil
+		why := "OlderThan is not a pure loop-free function of its two arguments"
+		if ok {
+			x, y := T("param", "0"), T("param", "1")
+			leaves := []*Term{Field(x, "height"), Field(y, "height"), Field(x, "view"), Field(y, "view")}
+			// only comparisons of these four values may occur
+			vals := []int{0, 1, 2}
+			n := 0
+		outer:
+			for _, h1 := range vals {
+				for _, h2 := range vals {
+					for _, v1 := range vals {
+						for _, v2 := range vals {
+							env := map[string]int{leaves[0].Key(): h1, leaves[1].Key(): h2, leaves[2].Key(): v1, leaves[3].Key(): v2}
+							got, known := evalConcrete(pt, env)
+							want := h1 < h2 || (h1 == h2 && v1 < v2)
+							n++
+							if !known {
+								ok, why = false, "OlderThan depends on something other than comparisons of the two (height, view) pairs: "+PP(pt)
+								break outer
+							}
+							if (got != 0) != want {
+								ok, why = false, fmtf("OlderThan((%d,%d),(%d,%d)) evaluates to %v; the lexicographic order gives %v; body: %s", h1, v1, h2, v2, got != 0, want, PP(pt))
+								break outer
+							}
+						}
+					}
+				}
+			}
+			r.Stats["K3.cases"] = n
 		}
+		r.Check("K3", props("C15", "C13"), "HeightView.OlderThan is the strict lexicographic order on (height, view): decided exhaustively over all order types of its inputs (values only occur in comparisons)", "OlderThan", a.P.Pos(fn.Pos()), ok, why, "N")
 	}
 	// K1: For
 	{
@@ -951,4 +975,84 @@ func runTimer(a *Analyzer, r *Results) {
 		}
 		r.Check("T11", props("C19", "C16"), "the election scheduler is armed and stopped only by the term (worker goroutine), never by the main loop or the timer goroutine", m, "-", ok, fmtf("callers: %v", callers), "W")
 	}
+}
+
+
+// evalConcrete evaluates a term built from integer leaves, comparisons and boolean connectives.
+func evalConcrete(t *Term, env map[string]int) (int, bool) {
+	if v, ok := env[t.Key()]; ok {
+		return v, true
+	}
+	b2i := func(b bool) int {
+		if b {
+			return 1
+		}
+		return 0
+	}
+	switch t.Op {
+	case "const":
+		switch t.Name {
+		case "true":
+			return 1, true
+		case "false":
+			return 0, true
+		}
+		if n := atoi(t.Name); n >= 0 {
+			return n, true
+		}
+		return 0, false
+	case "un":
+		if t.Name == "!" {
+			v, ok := evalConcrete(t.Args[0], env)
+			return b2i(v == 0), ok
+		}
+	case "and":
+		res := 1
+		for _, x := range t.Args {
+			v, ok := evalConcrete(x, env)
+			if !ok {
+				return 0, false
+			}
+			if v == 0 {
+				res = 0
+			}
+		}
+		return res, true
+	case "or":
+		res := 0
+		for _, x := range t.Args {
+			v, ok := evalConcrete(x, env)
+			if !ok {
+				return 0, false
+			}
+			if v != 0 {
+				res = 1
+			}
+		}
+		return res, true
+	case "ite":
+		c, ok := evalConcrete(t.Args[0], env)
+		if !ok {
+			return 0, false
+		}
+		if c != 0 {
+			return evalConcrete(t.Args[1], env)
+		}
+		return evalConcrete(t.Args[2], env)
+	case "bin":
+		x, ok1 := evalConcrete(t.Args[0], env)
+		y, ok2 := evalConcrete(t.Args[1], env)
+		if !ok1 || !ok2 {
+			return 0, false
+		}
+		switch t.Name {
+		case "<":
+			return b2i(x < y), true
+		case "<=":
+			return b2i(x <= y), true
+		case "==":
+			return b2i(x == y), true
+		}
+	}
+	return 0, false
 }
